@@ -239,7 +239,7 @@ class BaseServer:
         except KeyError:
             raise KeyError('Session not found')
         if s.closed:
-            del self.sockets[sid]
+            self.sockets.pop(sid, None)
             raise KeyError('Session is disconnected')
         return s
 
